@@ -86,9 +86,88 @@ mutant("C16", "start-after-join-of-previous-batch", BF,
        note="odd workers are polled, not awaited")
 
 
+# ------------------------------------------------------------------ C15
+ISO = "skfem/mapping/mapping_isoparametric.py"
+mutant("C15", "jcache-drops-tind", ISO,
+       "        h = hash_args(i, j, X, tind)\n",
+       "        h = hash_args(i, j, X)\n",
+       note="Jacobian cache ignores the cell subset")
+mutant("C15", "jcache-drops-X", ISO,
+       "        h = hash_args(i, j, X, tind)\n",
+       "        h = hash_args(i, j, X.shape, tind)\n",
+       note="Jacobian cache keyed by the shape of the point set only")
+mutant("C15", "global-coordinates-class-cache", "skfem/assembly/basis/cell_basis.py",
+       "        if self._global_coordinates is None:\n            self._global_coordinates = DiscreteField(\n                self.mapping.F(self.X, tind=self.tind)\n            )\n        return self._global_coordinates\n",
+       "        if type(self)._global_coordinates is None:\n            type(self)._global_coordinates = DiscreteField(\n                self.mapping.F(self.X, tind=self.tind)\n            )\n        return type(self)._global_coordinates\n",
+       note="per-basis cache hoisted to the class: first basis wins for all")
+mutant("C15", "enforce-drops-copy", "skfem/utils.py",
+       "    Aout = A if overwrite else A.copy()\n\n    # set rows on lhs to zero\n",
+       "    Aout = A\n\n    # set rows on lhs to zero\n",
+       note="enforce modifies the caller's matrix")
+mutant("C15", "enforce-rhs-drops-copy", "skfem/utils.py",
+       "            bout = b if overwrite else b.copy()\n            bout[D] = x[D]\n",
+       "            bout = b\n            bout[D] = x[D]\n",
+       note="enforce modifies the caller's right-hand side")
+mutant("C15", "with-boundaries-in-place", "skfem/mesh/mesh.py",
+       "        return replace(\n            self,\n            _boundaries={\n                **({} if self._boundaries is None else self._boundaries),\n",
+       "        if self._boundaries is not None:\n            self._boundaries.update({name: self.facets_satisfying(test_or_set, boundaries_only)\n                                     if callable(test_or_set) else test_or_set\n                                     for name, test_or_set in boundaries.items()})\n        return replace(\n            self,\n            _boundaries={\n                **({} if self._boundaries is None else self._boundaries),\n",
+       note="tagging also updates the operand's own dictionary (container, "
+            "not array: the statement's letter is about arrays; detected only "
+            "if a later result changes)", expect="violation")
+mutant("C15", "tet-adaptive-no-reseed", "skfem/mesh/mesh_tet_1.py",
+       "        np.random.seed(1337)\n", "",
+       note="bisection tie-breaking reads the caller's global RNG stream")
+mutant("C15", "scaled-in-place", "skfem/mesh/mesh.py",
+       "            doflocs=np.array([self.doflocs[itr] * factors[itr]\n                              for itr in range(len(factors))]),\n",
+       "            doflocs=np.multiply(self.doflocs, np.array(factors, dtype=float)[:len(self.doflocs), None], out=self.doflocs),\n",
+       note="scaling writes through to the operand's coordinate array")
+mutant("C15", "f2t-cache-shared-with-restrict", "skfem/mesh/mesh.py",
+       "        p, t, ix = self._reix(self.t[:, elements])\n\n        new_subdomains = None\n",
+       "        p, t, ix = self._reix(self.t[:, elements])\n        self.t2f.sort(axis=0)\n\n        new_subdomains = None\n",
+       note="restrict sorts the operand's cached t2f table in place")
+mutant("C15", "module-level-id-cache", "skfem/mapping/mapping_affine.py",
+       "class MappingAffine(Mapping):\n",
+       "_DET_CACHE = {}\n\n\nclass MappingAffine(Mapping):\n",
+       expect="clean", note="adds an unused module-level dict (benign)")
+mutant("C15", "probes-caches-finder-per-class", "skfem/assembly/basis/cell_basis.py",
+       "        cells = self.mesh.element_finder(mapping=self.mapping)(*x)\n",
+       "        if not hasattr(type(self), '_finder'):\n            type(self)._finder = self.mesh.element_finder(mapping=self.mapping)\n        cells = type(self)._finder(*x)\n",
+       note="element finder of the first mesh reused for every basis of the class")
+
+
+def revert_mutants(out_root, index):
+    """Each repaired defect, reverted, is a mutant the check must catch."""
+    import subprocess
+    kf = os.path.join(VERIF, "known_findings.jsonl")
+    if not os.path.exists(kf):
+        return
+    for line in open(kf):
+        line = line.strip()
+        if not line:
+            continue
+        d = json.loads(line)
+        if d.get("status") != "fixed":
+            continue
+        c = d["commit"]
+        try:
+            diff = subprocess.check_output(
+                ["git", "-C", "/repo", "diff", c, c + "^", "--", "skfem"],
+                text=True)
+        except subprocess.CalledProcessError:
+            continue
+        name = "revert-%s-%s" % (d.get("tag", "fix"), c[:8])
+        p = os.path.join(out_root, d["property"])
+        os.makedirs(p, exist_ok=True)
+        with open(os.path.join(p, name + ".diff"), "w") as f:
+            f.write(diff)
+        index.append({"prop": d["property"], "name": name, "file": "(revert)",
+                      "expect": "violation", "note": d["what"]})
+
+
 def main():
     out_root = os.path.join(VERIF, "mutants")
     index = []
+    revert_mutants(out_root, index)
     for m in M:
         path = os.path.join(REPO, m["file"])
         src = open(path).read()
